@@ -729,6 +729,13 @@ _BTree_set(BTree *self, PyObject *keyarg, PyObject *value,
     int childlength;    /* len(self->data[min].child) */
     int status;         /* our return value; and return value from callee */
     int self_was_empty; /* was self empty at entry? */
+#ifdef KEY_TYPE_IS_PYOBJECT
+    /* A separator key taken out of self->data is released only after the
+     * node has stopped pointing at it (releasing it can run arbitrary code
+     * that looks at the tree).
+     */
+    PyObject *dead_key = NULL;
+#endif
 
     KEY_TYPE key;
     int copied = 1;
@@ -867,7 +874,9 @@ _BTree_set(BTree *self, PyObject *keyarg, PyObject *value,
 
             UNLESS(PER_USE(bucket))
                 goto Error;
-            DECREF_KEY(d->key);
+#ifdef KEY_TYPE_IS_PYOBJECT
+            dead_key = d->key;
+#endif
             COPY_KEY(d->key, bucket->keys[0]);
             INCREF_KEY(d->key);
             PER_UNUSE(bucket);
@@ -963,7 +972,7 @@ _BTree_set(BTree *self, PyObject *keyarg, PyObject *value,
 #ifdef KEY_TYPE_IS_PYOBJECT
     if (min)
     {
-        DECREF_KEY(d->key);
+        dead_key = d->key;
     }
     else if (self->len > 1)
     {
@@ -972,7 +981,7 @@ _BTree_set(BTree *self, PyObject *keyarg, PyObject *value,
         * and hence never to be referenced again (the key in slot 0 is
         * trash).
         */
-        DECREF_KEY((d+1)->key);
+        dead_key = (d+1)->key;
     }
     /* Else min==0 and len==1:  we're emptying the BTree entirely, and
     * there is no key in need of decrefing.
@@ -992,6 +1001,9 @@ Done:
     }
 #endif
     PER_UNUSE(self);
+#ifdef KEY_TYPE_IS_PYOBJECT
+    Py_XDECREF(dead_key);
+#endif
     return status;
 
 Error:
@@ -1004,6 +1016,9 @@ Error:
         _BTree_clear(self);
     }
     PER_UNUSE(self);
+#ifdef KEY_TYPE_IS_PYOBJECT
+    Py_XDECREF(dead_key);
+#endif
     return -1;
 }
 
